@@ -73,6 +73,8 @@ pub fn run(ctx: &mut Ctx) {
         let lv = *ctx.rng.pick(&levels); let st = ctx.rng.below(5) as i32;
         case(ctx, &d, lv, st, kind);
         case(ctx, &d, 1, 4, kind);
+        // level 0 (stored blocks only) has its own block-cut rule; past one window every time
+        if n > 32000 { case(ctx, &d, 0, 0, kind); }
     }
     // bigger inputs
     let nb = if ctx.quick() { 10 } else { 120 };
@@ -82,5 +84,6 @@ pub fn run(ctx: &mut Ctx) {
         let d = plain::gen(&mut ctx.rng, kind, n);
         let (lv, st) = if ctx.rng.chance(1, 2) { (1, 4) } else { (*ctx.rng.pick(&levels), ctx.rng.below(5) as i32) };
         case(ctx, &d, lv, st, kind);
+        case(ctx, &d, 0, 0, kind);
     }
 }
